@@ -19,7 +19,7 @@ from . import verify, solve
 ROOT = os.path.dirname(os.path.dirname(os.path.abspath(__file__)))
 NATIVE_PY = "/venv/bin/python"
 
-CONTRACT_MODULES = ["numeric", "matchers", "wrappers", "scoring", "varints", "paging", "collectors", "commit", "tocfiles", "columns", "layout", "multimatcher", "postings", "editdistance", "leafmatcher", "listmatcher", "perdoc", "bitsets", "sortedset", "termrange", "iterdocs", "filelock", "termreplace", "openreader", "deletedoc", "freshness", "bounded_matchers", "rewrite"]
+CONTRACT_MODULES = ["numeric", "matchers", "wrappers", "scoring", "varints", "paging", "collectors", "commit", "tocfiles", "columns", "layout", "multimatcher", "postings", "editdistance", "leafmatcher", "listmatcher", "perdoc", "bitsets", "sortedset", "termrange", "iterdocs", "filelock", "termreplace", "openreader", "deletedoc", "freshness", "mpcancel", "bounded_matchers", "rewrite"]
 
 TRUSTED_BASE = [
     "T1 pyvc: the ast->SMT encoding of the Python subset (DESIGN 2.3); mitigated by canaries on every run",
